@@ -236,7 +236,7 @@ func (c *rnCase) run() string {
 				vals[i] = c.pl.value(i+1, v.Build())
 			}
 			if c.kind == "q" {
-				k, ks, tbl, ec := gocql.VerifC09QueryKey(s, rnStmt, vals)
+				k, ks, tbl, ec := queryKey(s, rnStmt, vals)
 				switch {
 				case ec != "":
 					return "err:" + ec
@@ -245,7 +245,7 @@ func (c *rnCase) run() string {
 				}
 				return "ok " + valgen.HexC(k) + " " + hx(ks) + "." + hx(tbl)
 			}
-			k, ec := gocql.VerifC09BatchKey(s, rnStmt, vals, "", nil)
+			k, ec := batchKey(s, rnStmt, vals, "", nil)
 			switch {
 			case ec != "":
 				return "err:" + ec
